@@ -120,6 +120,9 @@ func encLabel(e ast.Expr, env map[string]string) string {
 		}
 	case *ast.BasicLit:
 		return x.Value
+	case *ast.IndexExpr:
+		// X[i] inside a loop over X: the element
+		return "elem(" + encLabel(x.X, env) + ")"
 	case *ast.CompositeLit:
 		var parts []string
 		for _, el := range x.Elts {
@@ -152,6 +155,26 @@ func encodeOps(stmts []ast.Stmt, recv string, env map[string]string, c *Ctx) []w
 				lab = encLabel(args[0], env)
 			}
 			out = append(out, wop{kind: k, label: lab, pos: st.Pos()})
+		case *ast.AssignStmt:
+			// local alias of a field: pclinetab := fn.pclinetab
+			if len(st.Lhs) == 1 && len(st.Rhs) == 1 && st.Tok == token.DEFINE {
+				if id, ok := st.Lhs[0].(*ast.Ident); ok {
+					if l := encLabel(st.Rhs[0], env); !strings.HasPrefix(l, "?") {
+						env[id.Name] = l
+					}
+				}
+			}
+		case *ast.ForStmt:
+			// for i := 0; i < len(X); i++ { ... X[i] ... }
+			over := "?"
+			if be, ok := st.Cond.(*ast.BinaryExpr); ok && be.Op == token.LSS {
+				if call, ok := be.Y.(*ast.CallExpr); ok && len(call.Args) == 1 {
+					if id, ok := call.Fun.(*ast.Ident); ok && id.Name == "len" {
+						over = encLabel(call.Args[0], env)
+					}
+				}
+			}
+			out = append(out, wop{kind: "LOOP", label: over, body: encodeOps(st.Body.List, recv, env, c), pos: st.Pos()})
 		case *ast.RangeStmt:
 			over := encLabel(st.X, env)
 			env2 := map[string]string{}
@@ -493,22 +516,69 @@ func localOfType(fd *ast.FuncDecl, info *types.Info, typeName string) string {
 	return name
 }
 
+// serialMethods lists the methods declared on the named (unexported) type.
+func serialMethods(c *Ctx, typeName string) map[string]*ast.FuncDecl {
+	out := map[string]*ast.FuncDecl{}
+	pk := c.P.Pkg(compilePkg)
+	if pk == nil {
+		return out
+	}
+	for _, f := range pk.Syntax {
+		for _, d := range f.Decls {
+			fd, ok := d.(*ast.FuncDecl)
+			if !ok || fd.Recv == nil || len(fd.Recv.List) == 0 || fd.Body == nil {
+				continue
+			}
+			t := fd.Recv.List[0].Type
+			if st, ok := t.(*ast.StarExpr); ok {
+				t = st.X
+			}
+			if id, ok := t.(*ast.Ident); ok && id.Name == typeName {
+				out[fd.Name.Name] = fd
+			}
+		}
+	}
+	return out
+}
+
+// structLiteralType finds the named struct type of the composite literal a decoder helper builds.
+func structLiteralType(fd *ast.FuncDecl) string {
+	name := ""
+	ast.Inspect(fd.Body, func(n ast.Node) bool {
+		if cl, ok := n.(*ast.CompositeLit); ok && name == "" {
+			if id, ok := cl.Type.(*ast.Ident); ok && ast.IsExported(id.Name) {
+				name = id.Name
+			}
+		}
+		return true
+	})
+	return name
+}
+
 func ruleZ2(c *Ctx) {
 	s := serialDecls(c)
 	if s == nil {
 		return
 	}
 	info := s.pk.TypesInfo
+	encM, decM := serialMethods(c, "encoder"), serialMethods(c, "decoder")
+	paired := map[string]bool{}
+	for name := range encM {
+		if _, prim := wireKind[name]; prim {
+			continue
+		}
+		if _, ok := decM[name]; ok {
+			paired[name] = true
+		}
+	}
 	inline := func(name string) []ast.Stmt {
-		switch name {
-		case "function", "binding", "bindings", "int", "int64", "uint64", "string", "bytes":
+		if _, prim := wireKind[name]; prim || paired[name] {
 			return nil
 		}
-		fd, _ := c.P.FuncDecl(compilePkg, "decoder."+name)
-		if fd == nil {
-			return nil
+		if fd, ok := decM[name]; ok {
+			return fd.Body.List
 		}
-		return fd.Body.List
+		return nil
 	}
 	type pair struct {
 		name     string
@@ -520,9 +590,17 @@ func ruleZ2(c *Ctx) {
 	}
 	pairs := []pair{
 		{"Encode/DecodeProgram", s.encode, s.decode, localOfType(s.encode, info, "encoder"), localOfType(s.decode, info, "decoder"), recvName(s.encode), "Program"},
-		{"function", s.encFunction, s.decFunction, recvName(s.encFunction), recvName(s.decFunction), paramName(s.encFunction, 0), "Funcode"},
-		{"binding", s.encBinding, s.decBinding, recvName(s.encBinding), recvName(s.decBinding), paramName(s.encBinding, 0), "Binding"},
-		{"bindings", s.encBindings, s.decBindings, recvName(s.encBindings), recvName(s.decBindings), paramName(s.encBindings, 0), ""},
+	}
+	var names []string
+	for n := range paired {
+		names = append(names, n)
+	}
+	sort.Strings(names)
+	for _, n := range names {
+		pairs = append(pairs, pair{n, encM[n], decM[n], recvName(encM[n]), recvName(decM[n]), paramName(encM[n], 0), structLiteralType(decM[n])})
+	}
+	if len(pairs) < 4 {
+		c.anchorFail("only %d encoder/decoder helper pairs found", len(pairs))
 	}
 	for _, p := range pairs {
 		if p.encRecv == "" || p.decRecv == "" {
@@ -534,12 +612,8 @@ func ruleZ2(c *Ctx) {
 		fieldOf := map[string]string{}
 		if p.litType != "" {
 			fieldOf, _, _ = compositeFieldMap(p.dec.Body, p.litType)
-		} else {
-			// bindings: the made slice is the result
-			fieldOf = map[string]string{}
 		}
 		dops := decodeOps(p.dec.Body.List, p.decRecv, fieldOf, inline, c)
-		// normalise encoder labels: strip leading "."
 		var norm func(ops []wop)
 		norm = func(ops []wop) {
 			for i := range ops {
@@ -553,36 +627,27 @@ func ruleZ2(c *Ctx) {
 		}
 		norm(eops)
 		norm(dops)
-		if p.name == "bindings" {
-			// decoder's result slice is the encoder's parameter
-			var ren func(ops []wop)
-			ren = func(ops []wop) {
+		if p.litType == "" {
+			// the decoder's result value is the encoder's parameter: compare shapes, with
+			// every label reduced to its role (len/elem/whole) relative to the subject
+			var role func(ops []wop)
+			role = func(ops []wop) {
 				for i := range ops {
-					ops[i].label = strings.ReplaceAll(ops[i].label, "bindings", "")
-					ops[i].label = strings.ReplaceAll(ops[i].label, "()", "(subject)")
-					ren(ops[i].body)
-				}
-			}
-			ren(dops)
-			var ren2 func(ops []wop)
-			ren2 = func(ops []wop) {
-				for i := range ops {
-					if ops[i].label == "" {
+					l := ops[i].label
+					switch {
+					case ops[i].kind == "SWITCH":
+					case strings.HasPrefix(l, "len("):
+						ops[i].label = "len(subject)"
+					case strings.HasPrefix(l, "elem("):
+						ops[i].label = "elem(subject)"
+					default:
 						ops[i].label = "subject"
 					}
-					ops[i].label = strings.ReplaceAll(ops[i].label, "()", "(subject)")
-					if ops[i].kind == "LOOP" && ops[i].label == "" {
-						ops[i].label = "subject"
-					}
-					ren2(ops[i].body)
+					role(ops[i].body)
 				}
 			}
-			ren2(eops)
-			for i := range dops {
-				if dops[i].label == "" {
-					dops[i].label = "subject"
-				}
-			}
+			role(eops)
+			role(dops)
 		}
 		compareWire(c, p.name, eops, dops, p.enc.Pos(), p.dec.Pos())
 	}
@@ -736,7 +801,15 @@ func ruleZ3(c *Ctx) {
 	info := s.pk.TypesInfo
 	// encoder: type switch arms -> tag
 	encTags := map[string]string{} // type -> tag
-	ast.Inspect(s.encode.Body, func(n ast.Node) bool {
+	encBodies := &ast.BlockStmt{List: append([]ast.Stmt{}, s.encode.Body.List...)}
+	for _, fd := range serialMethods(c, "encoder") {
+		encBodies.List = append(encBodies.List, fd.Body)
+	}
+	decBodies := &ast.BlockStmt{List: append([]ast.Stmt{}, s.decode.Body.List...)}
+	for _, fd := range serialMethods(c, "decoder") {
+		decBodies.List = append(decBodies.List, fd.Body)
+	}
+	ast.Inspect(encBodies, func(n ast.Node) bool {
 		ts, ok := n.(*ast.TypeSwitchStmt)
 		if !ok {
 			return true
@@ -763,10 +836,15 @@ func ruleZ3(c *Ctx) {
 	})
 	// decoder: tag -> type of value assigned to c
 	decTags := map[string]string{}
-	ast.Inspect(s.decode.Body, func(n ast.Node) bool {
+	ast.Inspect(decBodies, func(n ast.Node) bool {
 		sw, ok := n.(*ast.SwitchStmt)
 		if !ok || sw.Tag == nil {
 			return true
+		}
+		if _, isDec := innerDecodeCall(sw.Tag, "d"); !isDec {
+			if m, ok := innerDecodeCall(sw.Tag, localOfType(s.decode, info, "decoder")); !ok || m == "" {
+				return true
+			}
 		}
 		for _, cl := range sw.Body.List {
 			cc := cl.(*ast.CaseClause)
@@ -838,7 +916,20 @@ func ruleZ3(c *Ctx) {
 	// VM loader arms (makeToplevelFunction)
 	if fd, pk := c.P.FuncDecl("starlark", "makeToplevelFunction"); fd != nil {
 		vm := map[string]bool{}
-		ast.Inspect(fd.Body, func(n ast.Node) bool {
+		// the loader's type switch may live in a helper called from makeToplevelFunction
+		scan := &ast.BlockStmt{List: []ast.Stmt{fd.Body}}
+		if root := c.P.Func("starlark", "makeToplevelFunction"); root != nil {
+			eachInstr(root, func(in ssa.Instruction) {
+				if ci, ok := in.(ssa.CallInstruction); ok {
+					if cal := ci.Common().StaticCallee(); cal != nil && fnPkgPath(cal) == modPath+"/starlark" && cal.Syntax() != nil {
+						if hd, ok := cal.Syntax().(*ast.FuncDecl); ok && hd.Body != nil {
+							scan.List = append(scan.List, hd.Body)
+						}
+					}
+				}
+			})
+		}
+		ast.Inspect(scan, func(n ast.Node) bool {
 			ts, ok := n.(*ast.TypeSwitchStmt)
 			if !ok {
 				return true
